@@ -42,6 +42,7 @@ func runC13(c *Ctx) {
 	c13R4(c)
 	c13Errs(c)
 	c13Labels(c)
+	c13NoAliasDecode(c, "C13.R10")
 	if g := newGossipAnchors(c.P); g.ok {
 		gsR1(c, g, "C13.R5")
 	} else {
@@ -1136,19 +1137,51 @@ func testedValueLeaf(leaf *ssa.Call, em emitted) (ssa.Value, bool) {
 // sites); (b) a node enters the table from received data only under the fact
 // utf8.ValidString(id) (so every ID held by a node state is a valid label).
 func c13Labels(c *Ctx) {
+	labelRule(c, "C13.R9", []string{"pkg/gossip"}, 4, true)
+}
+
+// labelRule: see c13Labels. With insertHalf the validation of ids entering the
+// gossip table is checked too; for the server packages only the label values
+// are classified (there a routing-table node's ID is safe because it comes from
+// the validated gossip table, and endpoint ids - chosen by clients - are not).
+func labelRule(c *Ctx, rule string, pkgs []string, floor int, insertHalf bool) {
 	p := c.P
 	g := newGossipAnchors(p)
 	if !g.ok {
 		return
 	}
-	c.floor("C13.R9", 4)
+	clNodeID := p.Field(clPkg, "Node", "ID")
+	if floor > 0 {
+		c.floor(rule, floor)
+	}
 	isPanickingWith := func(cc *ssa.CallCommon) bool {
 		n := commonName(cc)
 		return strings.HasPrefix(n, "(*github.com/prometheus/client_golang/prometheus.") && (strings.HasSuffix(n, "Vec).With") || strings.HasSuffix(n, "Vec).WithLabelValues"))
 	}
 	var safe func(v ssa.Value, depth int) (bool, string)
 	safe = func(v ssa.Value, depth int) (bool, string) {
+		// a value of (or converted from) a module enumeration type such as NodeStatus: set from constants only
+		isEnum := func(t types.Type) bool {
+			nt, ok := t.(*types.Named)
+			if !ok || nt.Obj().Pkg() == nil || !strings.HasPrefix(nt.Obj().Pkg().Path(), modPath) {
+				return false
+			}
+			b, ok := nt.Underlying().(*types.Basic)
+			return ok && b.Kind() == types.String
+		}
+		if isEnum(v.Type()) {
+			return true, "a module enumeration"
+		}
+		if ct, ok := v.(*ssa.ChangeType); ok && isEnum(ct.X.Type()) {
+			return true, "a module enumeration"
+		}
+		if cv, ok := v.(*ssa.Convert); ok && isEnum(cv.X.Type()) {
+			return true, "a module enumeration"
+		}
 		v = strip(v)
+		if isEnum(v.Type()) {
+			return true, "a module enumeration"
+		}
 		if _, ok := v.(*ssa.Const); ok {
 			return true, "constant"
 		}
@@ -1163,6 +1196,25 @@ func c13Labels(c *Ctx) {
 		}
 		if _, ok := loadedField(v, g.localIDF); ok {
 			return true, "the local id"
+		}
+		if clNodeID != nil {
+			if _, ok := loadedField(v, clNodeID); ok {
+				return true, "the ID of a routing-table node"
+			}
+		}
+		// typed string enumerations (status) and the request method are not attacker-shaped byte strings
+		if ct, ok := v.(*ssa.ChangeType); ok {
+			if nt, ok := ct.X.Type().(*types.Named); ok && nt.Obj().Pkg() != nil && strings.HasPrefix(nt.Obj().Pkg().Path(), modPath) {
+				return true, "a module enumeration"
+			}
+		}
+		if cv, ok := v.(*ssa.Convert); ok {
+			if nt, ok := cv.X.Type().(*types.Named); ok && nt.Obj().Pkg() != nil && strings.HasPrefix(nt.Obj().Pkg().Path(), modPath) {
+				return true, "a module enumeration"
+			}
+		}
+		if strings.HasSuffix(path(v), ".&Method") {
+			return true, "the request method (validated by net/http)"
 		}
 		if pv, ok := v.(*ssa.Parameter); ok && depth < 3 {
 			fn := pv.Parent()
@@ -1193,31 +1245,36 @@ func c13Labels(c *Ctx) {
 		}
 		return false, "a string that is neither constant, formatted, nor a table node's ID: " + path(v)
 	}
-	for _, fn := range pkgFuncs(p, "pkg/gossip") {
-		allInstrs(fn, func(i ssa.Instruction) {
-			cc := callCommon(i)
-			if cc == nil || !isPanickingWith(cc) {
-				return
-			}
-			bad := ""
-			for _, a := range cc.Args[1:] {
-				if mm, ok := strip(a).(*ssa.MakeMap); ok {
-					for _, r := range *mm.Referrers() {
-						if mu, ok := r.(*ssa.MapUpdate); ok {
-							if ok2, why := safe(mu.Value, 0); !ok2 {
-								k, _ := constString(mu.Key)
-								bad = "label " + k + ": " + why
+	for _, fn := range pkgFuncs(p, pkgs...) {
+		for _, gfn := range withAnon(fn) {
+			allInstrs(gfn, func(i ssa.Instruction) {
+				cc := callCommon(i)
+				if cc == nil || !isPanickingWith(cc) {
+					return
+				}
+				bad := ""
+				for _, a := range cc.Args[1:] {
+					if mm, ok := strip(a).(*ssa.MakeMap); ok {
+						for _, r := range *mm.Referrers() {
+							if mu, ok := r.(*ssa.MapUpdate); ok {
+								if ok2, why := safe(mu.Value, 0); !ok2 {
+									k, _ := constString(mu.Key)
+									bad = "label " + k + ": " + why
+								}
 							}
 						}
+						continue
 					}
-					continue
+					if ok2, why := safe(a, 0); !ok2 {
+						bad = why
+					}
 				}
-				if ok2, why := safe(a, 0); !ok2 {
-					bad = why
-				}
-			}
-			c.check(bad == "", "C13.R9", fnName(fn)+"/label-values", i.Pos(), "label values are constants, formatted numbers/booleans, or IDs of table nodes", "a panicking metrics call receives "+bad)
-		})
+				c.check(bad == "", rule, fnName(gfn)+"/label-values", i.Pos(), "label values are constants, formatted numbers/booleans, or IDs of table nodes", "a panicking metrics call receives "+bad)
+			})
+		}
+	}
+	if !insertHalf {
+		return
 	}
 	// (b) IDs enter the table validated
 	all := g.allWrites()
@@ -1247,8 +1304,40 @@ func c13Labels(c *Ctx) {
 				// the key is usually a field load (entry.ID): look for the fact on the same access path
 				ok = anyFact(computeFacts(fn).At(w.instr.Block()), func(f Fact) bool { return isValid(f, key) })
 			}
-			c.check(ok, "C13.R9", fnName(fn)+"/node-id-validated", w.instr.Pos(), "a received node id enters the table only under utf8.ValidString(id)",
+			c.check(ok, rule, fnName(fn)+"/node-id-validated", w.instr.Pos(), "a received node id enters the table only under utf8.ValidString(id)",
 				"a node whose id was received from the network is stored without checking that the id is valid UTF-8; the id is later used as a metrics label value, and prometheus' With panics on invalid UTF-8: one forged datagram (or join stream) crashes the node - there is no recover on the packet path")
 		}
 	}
+}
+
+// c13NoAliasDecode: decoded values must not alias the receive buffer. The
+// packet listener reuses one read buffer for every datagram and the state keeps
+// decoded ids and addresses; with the codec's ZeroCopy option (or a decoder
+// built over the packet bytes with it) those strings point into the buffer and
+// change when the next packet arrives.
+func c13NoAliasDecode(c *Ctx, rule string) {
+	p := c.P
+	bad := ""
+	for _, fn := range pkgFuncs(p, "pkg/gossip") {
+		for _, g := range withAnon(fn) {
+			allInstrs(g, func(i ssa.Instruction) {
+				st, ok := i.(*ssa.Store)
+				if !ok {
+					return
+				}
+				fa, ok := st.Addr.(*ssa.FieldAddr)
+				if !ok {
+					return
+				}
+				fv, _ := fieldVarOf(fa)
+				if fv == nil || fv.Name() != "ZeroCopy" {
+					return
+				}
+				if b, isK := constBool(st.Val); !isK || b {
+					bad = "ZeroCopy enabled at " + p.pos(st.Pos())
+				}
+			})
+		}
+	}
+	c.check(bad == "", rule, "pkg/gossip/decoded-values-own-their-bytes", token.NoPos, "the codec handle never enables ZeroCopy", "decoded strings alias the packet buffer ("+bad+"): the listener reuses that buffer, so node ids and addresses kept in the state are rewritten by the next datagram")
 }
